@@ -9,14 +9,12 @@ import (
 	"fmt"
 	"io"
 	"math/big"
-	"os"
 	"reflect"
 	"sort"
 	"time"
 
 	"github.com/iotaledger/hive.go/ds/serializableorderedmap"
 	"github.com/iotaledger/hive.go/serializer/v2"
-	"github.com/iotaledger/hive.go/serializer/v2/serix"
 	"github.com/iotaledger/hive.go/serializer/v2/stream"
 	"verifharness/hx"
 	"verifsim/simrt"
@@ -99,12 +97,6 @@ func serixLeg(s *simrt.Sim, reencode bool) {
 		if reencode {
 			var n int
 			var ok bool
-			c0 := cpuNanos()
-			defer func() {
-				if d := cpuNanos() - c0; d > 50_000_000 && os.Getenv("CODEC_DEBUG") != "" {
-					fmt.Fprintf(os.Stderr, "SLOW %dms type=%s %s in=%x\n", d/1e6, e.name, desc, clip(in))
-				}
-			}()
 			if panicked, _ := hx.Try(func() { n, ok = decode(in)() }); panicked {
 				s.Probe("decode-panicked(see C02)")
 				return
@@ -187,13 +179,12 @@ func written(f func(w *stream.ByteBuffer) error) []byte {
 	return append([]byte{}, b...)
 }
 
-func decodeInto(s *simrt.Sim, e *entry) func(b []byte) (reflect.Value, int, error) {
-	return func(b []byte) (reflect.Value, int, error) {
-		p := reflect.New(e.rt)
-		var n int
-		var err error
-		s.Atomic(func() { n, err = api.Decode(ctx, b, p.Interface(), serix.WithValidation()) })
-		return p, n, err
+func rawObject(short bool) func(b []byte) ([]byte, int, error) {
+	return func(b []byte) ([]byte, int, error) {
+		if short && len(b) > 0 {
+			return b, len(b) - 1, nil
+		}
+		return b, len(b), nil
 	}
 }
 
@@ -227,20 +218,30 @@ var streamTargets = []streamTarget{
 		return written(func(w *stream.ByteBuffer) error { return stream.WriteBytesWithSize(w, b, lenTypes[lt]) }), lenMark(lt, "len"),
 			func(r io.ReadSeeker) error { _, err := stream.ReadBytesWithSize(r, lenTypes[lt]); return err }
 	}},
+	// The object callback is a trivial one here (the payload decoders are the serix / deser families'
+	// business): it accepts any bytes, or reports fewer consumed bytes than it was given.
 	{"stream.ReadObject", func(s *simrt.Sim) ([]byte, []mark, func(io.ReadSeeker) error) {
-		e, orig, _, ref := payload(s)
+		b := genRawBytes(s, 1+s.Choose(30))
+		short := s.Choose(4) == 0
 		data := written(func(w *stream.ByteBuffer) error {
-			return stream.WriteObject(w, orig, func(x reflect.Value) ([]byte, error) { return encodeReal(s, x, true) })
+			return stream.WriteObject(w, b, func(x []byte) ([]byte, error) { return x, nil })
 		})
-		return data, ref.marks, func(r io.ReadSeeker) error { _, err := stream.ReadObject(r, len(data), decodeInto(s, e)); return err }
+		return data, nil, func(r io.ReadSeeker) error {
+			_, err := stream.ReadObject(r, len(data), rawObject(short))
+			return err
+		}
 	}},
 	{"stream.ReadObjectWithSize", func(s *simrt.Sim) ([]byte, []mark, func(io.ReadSeeker) error) {
-		lt := 1 + s.Choose(3)
-		e, orig, _, _ := payload(s)
+		lt := s.Choose(4)
+		b := genRawBytes(s, s.Choose(30))
+		short := s.Choose(4) == 0
 		data := written(func(w *stream.ByteBuffer) error {
-			return stream.WriteObjectWithSize(w, orig, lenTypes[lt], func(x reflect.Value) ([]byte, error) { return encodeReal(s, x, true) })
+			return stream.WriteObjectWithSize(w, b, lenTypes[lt], func(x []byte) ([]byte, error) { return x, nil })
 		})
-		return data, lenMark(lt, "len"), func(r io.ReadSeeker) error { _, err := stream.ReadObjectWithSize(r, lenTypes[lt], decodeInto(s, e)); return err }
+		return data, lenMark(lt, "len"), func(r io.ReadSeeker) error {
+			_, err := stream.ReadObjectWithSize(r, lenTypes[lt], rawObject(short))
+			return err
+		}
 	}},
 	{"stream.ReadCollection", func(s *simrt.Sim) ([]byte, []mark, func(io.ReadSeeker) error) {
 		lt := s.Choose(4)
@@ -798,7 +799,9 @@ func faultJSONBody(s *simrt.Sim) {
 		for i := 1; i < len(sites); i++ {
 			idx := 1 + (start-1+i-1)%(len(sites)-1)
 			site := sites[idx]
-			for _, rep := range jsonReplacements {
+			rstart := s.Choose(len(jsonReplacements))
+			for ri := range jsonReplacements {
+				rep := jsonReplacements[(rstart+ri)%len(jsonReplacements)]
 				// fresh tree per fault
 				var fresh []jsonSite
 				tree := parse()
@@ -838,8 +841,13 @@ func faultJSONBody(s *simrt.Sim) {
 		// a second member with an existing top-level key and a value of another dynamic type is appended to
 		// the top-level object (JSON text level: encoding/json keeps the last one)
 		tree := parse()
-		for _, k := range sortedKeys(tree) {
-			for _, rep := range jsonReplacements {
+		keys := sortedKeys(tree)
+		kstart := s.Choose(len(keys))
+		for ki := range keys {
+			k := keys[(kstart+ki)%len(keys)]
+			rstart := s.Choose(len(jsonReplacements))
+			for ri := range jsonReplacements {
+				rep := jsonReplacements[(rstart+ri)%len(jsonReplacements)]
 				kb, _ := json.Marshal(k)
 				vb, _ := json.Marshal(rep.v())
 				text := append([]byte{}, doc[:len(doc)-1]...)
